@@ -25,7 +25,13 @@ func expiryFields(r *h.Rng, at time.Duration, delta time.Duration) (map[string]i
 	case 0:
 		return map[string]interface{}{"expires": float64(e)}, "expires-number"
 	case 1:
-		return map[string]interface{}{"expires": time.Unix(e, 0).UTC().Format(time.RFC3339)}, "expires-rfc3339"
+		// the same instant written in UTC or with a zone offset
+		zone := time.UTC
+		if r.Bool() {
+			off := []int{2 * 3600, -5 * 3600, 5*3600 + 1800, -(9*3600 + 1800), 14 * 3600}[r.Intn(5)]
+			zone = time.FixedZone("", off)
+		}
+		return map[string]interface{}{"expires": time.Unix(e, 0).In(zone).Format(time.RFC3339)}, "expires-rfc3339"
 	case 2:
 		return map[string]interface{}{"ttl": delta.String()}, "ttl-duration"
 	default:
